@@ -202,6 +202,8 @@ def parseIntoH1C (s : ReqCore) (block : Bytes) : IntoRes ReqCore :=
       match parseReqline o rl (block.take len) with
       | .error e => .done (s.onLive (storeError · e pv pm))
       | .ok r1 =>
+        -- http_request_parse_headers(): in strict mode the blank line that ends the head must be CRLF too
+        if o.headerStrict && block.getD (len - 2) 0 != cr then .done (s.onLive (storeError · 400 pv pm)) else
         match parseHeaders o (mergeReqline (toPReq s.toReqLive) r1) fields with
         | .error e => .done (s.onLive (storeError · e pv pm))
         | .ok r2 =>
